@@ -26,8 +26,14 @@ def gen_query(rng, V, facts):
     def quantity():
         r2 = rng.random()
         if r2 < 0.3:
-            u = rng.choice(PLURAL_UNITS)
-            x = rng.choice(["1", "1", "2", "0.5", "1.0", "3"])
+            u = rng.choice(V.pluralisable or PLURAL_UNITS)
+            x = rng.choice(["1", "1", "2", "0.5", "1.0", "3", "-1", "01", "1e0", "10e-1", "100%", "0", "1.00000", "(2 / 2)", "(0.5 * 2)", "(3 - 2)"])
+            if rng.random() < 0.35:
+                # values that are not one but as close to it as one likes (a float comparison cannot tell; seed C19-c),
+                # and values that ARE one spelled the long way
+                k = rng.randint(1, 40)
+                x = rng.choice(["1." + "0" * (k - 1) + "1", "0." + "9" * k, "1." + "0" * k, "(1 + 1e-%d)" % k, "(1 - 1e-%d)" % k,
+                                "-1." + "0" * (k - 1) + "1", "(1 + 1e-%d - 1e-%d)" % (k, k)])
             return "%s %s" % (x, u)
         if r2 < 0.5:
             e = V.pick(rng)
@@ -81,6 +87,12 @@ def shard(p):
     env.pop("RUST_LOG", None)
     try:
         V = G.Vocab(d)
+        # which unit words have a plural spelling is asked of the library itself (Compound::display(true) vs (false))
+        bare = [e for e in V.entries if e["bare"]]
+        reps0 = d.call_many([{"op": "query", "q": "2 " + e["word"], "full": True} for e in bare], timeout=300)
+        V.pluralisable = sorted({e["word"] for e, r0 in zip(bare, reps0) if len(r0.get("items") or []) == 1 and "ok" in r0["items"][0]
+                                 and r0["items"][0]["ok"].get("disp") != r0["items"][0]["ok"].get("disp_pl")})
+        acc.seen("pluralisable_unit_words", tuple(V.pluralisable))
         for _ in range(p["n"]):
             q = gen_query(rng, V, p["facts"])
             exact_mode = rng.random() < 0.5
